@@ -43,6 +43,9 @@ var M *material
 func must(err error) {
 	if err != nil {
 		fmt.Println("HARNESS-ERROR:", err)
+		if M != nil && M.Dir != "" && os.Getenv("VERIF_SHARD_OUT") == "" {
+			os.RemoveAll(M.Dir)
+		}
 		os.Exit(2)
 	}
 }
